@@ -55,6 +55,26 @@ Section MapFacts.
         * apply IH.
   Qed.
 
+  Lemma mget_mdel : forall k k0 (l : list (K * V)),
+    mget eqb k0 (mdel eqb k l) = if eqb k0 k then None else mget eqb k0 l.
+  Proof.
+    intros k k0 l. induction l as [|[k' v'] l IH]; cbn.
+    - destruct (eqb k0 k); reflexivity.
+    - destruct (eqb k k') eqn:E.
+      + rewrite IH. destruct (eqb k0 k) eqn:E2; auto.
+        apply eqb_eq in E. subst k'. destruct (eqb k0 k) eqn:E3; [discriminate|reflexivity].
+      + cbn. destruct (eqb k0 k') eqn:E2.
+        * destruct (eqb k0 k) eqn:E3; auto. apply eqb_eq in E2. apply eqb_eq in E3. subst. rewrite eqb_refl' in E. discriminate.
+        * apply IH.
+  Qed.
+
+  Lemma mget_fold_mdel : forall k (ks : list K) (l : list (K * V)),
+    mget eqb k (fold_left (fun acc n => mdel eqb n acc) ks l) = if existsb (eqb k) ks then None else mget eqb k l.
+  Proof.
+    intros k ks. induction ks as [|n ks IH]; intro l; cbn [fold_left existsb]; auto.
+    rewrite IH, mget_mdel. destruct (eqb k n), (existsb (eqb k) ks); reflexivity.
+  Qed.
+
   (* the last binding of k in a batch of writes *)
   Definition last_write (k : K) (ws : list (K * V)) : option V :=
     fold_left (fun acc w => if eqb k (fst w) then Some (snd w) else acc) ws None.
@@ -97,7 +117,7 @@ Definition wd (t : task) (k : path) : option minfo :=
   | TPopulate p k0 (o, l) =>
       if refused o l then None
       else if path_eqb k (p ++ [k0]) then Some {| mdtype := ldtype l; mshape := lshape l; mfile := true |} else None
-  | TWrite _ _ => None
+  | TWrite _ _ _ => None
   end.
 
 Definition file_writes (t : task) : list (floc * content) :=
@@ -105,13 +125,16 @@ Definition file_writes (t : task) : list (floc * content) :=
   | TPopulate p k0 (o, l) =>
       if refused o l || Nat.eqb (numel (lshape l)) 0 then []
       else [((p, FLeaf k0), CCells (ldtype l) (if like o then repeat 0%Z (numel (lshape l)) else lcells l))]
-  | TWrite p (Ok files) => map (fun fc => ((p, fst fc), snd fc)) files
-  | TWrite p (Raised _) => []
+  | TWrite p (Ok files) _ => map (fun fc => ((p, fst fc), snd fc)) files
+  | TWrite p (Raised _) _ => []
   end.
 Definition wf (t : task) (k : floc) : option content := last_write floc_eqb k (file_writes t).
+Definition file_removals (t : task) : list floc :=
+  match t with TWrite p (Ok _) rm => map (fun n => (p, n)) rm | _ => [] end.
+Definition wr (t : task) (k : floc) : bool := existsb (floc_eqb k) (file_removals t).
 
 Definition wdirs (t : task) (q : path) : bool :=
-  match t with TWrite p (Ok _) => existsb (path_eqb q) (prefixes p) | _ => false end.
+  match t with TWrite p (Ok _) _ => existsb (path_eqb q) (prefixes p) | _ => false end.
 
 Lemma existsb_mkdirs : forall q p d,
   existsb (path_eqb q) (mkdirs p d) = existsb (path_eqb q) (prefixes p) || existsb (path_eqb q) d.
@@ -129,30 +152,37 @@ Qed.
 Lemma run_task_dest : forall t s k,
   mget path_eqb k (dest (run_task t s)) = match wd t k with Some v => Some v | None => mget path_eqb k (dest s) end.
 Proof.
-  intros [p k0 [o l]|p [files|e]] s k; cbn; auto.
+  intros [p k0 [o l]|p [files|e] rm] s k; cbn; auto.
   destruct (refused o l); cbn; auto.
   rewrite (mget_mset path_eqb path_eqb_eq). destruct (path_eqb k (p ++ [k0])); reflexivity.
 Qed.
 
 Lemma run_task_fs : forall t s k,
-  mget floc_eqb k (fs (run_task t s)) = match wf t k with Some v => Some v | None => mget floc_eqb k (fs s) end.
+  mget floc_eqb k (fs (run_task t s))
+  = match wf t k with Some v => Some v | None => if wr t k then None else mget floc_eqb k (fs s) end.
 Proof.
-  intros [p k0 [o l]|p [files|e]] s k; unfold wf; cbn; auto.
+  intros [p k0 [o l]|p [files|e] rm] s k; unfold wf, wr; cbn; auto.
   - destruct (refused o l); cbn; auto.
     destruct (Nat.eqb (numel (lshape l)) 0); cbn; auto.
     rewrite (mget_mset floc_eqb floc_eqb_eq). unfold last_write. cbn.
     destruct (floc_eqb k (p, FLeaf k0)); reflexivity.
-  - unfold write_files.
-    replace (fold_left (fun acc fc => mset floc_eqb (p, fst fc) (snd fc) acc) files (fs s))
-      with (fold_left (fun acc w => mset floc_eqb (fst w) (snd w) acc) (map (fun fc => ((p, fst fc), snd fc)) files) (fs s)).
-    + apply (mget_fold_mset floc_eqb floc_eqb_eq).
-    + generalize (fs s). induction files as [|fc files IH]; intro f; cbn; auto.
+  - unfold write_files, remove_files.
+    replace (fold_left (fun acc fc => mset floc_eqb (p, fst fc) (snd fc) acc) files
+               (fold_left (fun acc n => mdel floc_eqb (p, n) acc) rm (fs s)))
+      with (fold_left (fun acc w => mset floc_eqb (fst w) (snd w) acc) (map (fun fc => ((p, fst fc), snd fc)) files)
+              (fold_left (fun (acc : list (floc * content)) n => mdel floc_eqb n acc) (map (fun n => (p, n)) rm) (fs s))).
+    + rewrite (mget_fold_mset floc_eqb floc_eqb_eq). rewrite (mget_fold_mdel floc_eqb floc_eqb_eq). reflexivity.
+    + assert (R : forall f : list (floc * content), fold_left (fun acc n => mdel floc_eqb n acc) (map (fun n => (p, n)) rm) f
+                            = fold_left (fun acc n => mdel floc_eqb (p, n) acc) rm f).
+      { induction rm as [|n rm IH]; intro f; cbn; auto. }
+      rewrite R. generalize (fold_left (fun acc n => mdel floc_eqb (p, n) acc) rm (fs s)).
+      induction files as [|fc files IH]; intro f; cbn; auto.
 Qed.
 
 Lemma run_task_dirs : forall t s q,
   existsb (path_eqb q) (dirs (run_task t s)) = wdirs t q || existsb (path_eqb q) (dirs s).
 Proof.
-  intros [p k0 [o l]|p [files|e]] s q; cbn; auto.
+  intros [p k0 [o l]|p [files|e] rm] s q; cbn; auto.
   - destruct (refused o l); reflexivity.
   - apply existsb_mkdirs.
 Qed.
@@ -190,7 +220,7 @@ Qed.
 
 Lemma wd_target : forall t k v, wd t k = Some v -> existsb (path_eqb k) (dest_targets t) = true.
 Proof.
-  intros [p k0 [o l]|p r] k v; cbn; try discriminate.
+  intros [p k0 [o l]|p r rm] k v; cbn; try discriminate.
   destruct (refused o l); try discriminate.
   destruct (path_eqb k (p ++ [k0])) eqn:E; try discriminate. intros _. cbn. now rewrite E.
 Qed.
@@ -198,10 +228,18 @@ Qed.
 Lemma wf_target : forall t k v, wf t k = Some v -> existsb (floc_eqb k) (file_targets t) = true.
 Proof.
   intros t k v H. unfold wf in H. apply (last_write_in floc_eqb) in H.
-  destruct t as [p k0 [o l]|p [files|e]]; cbn in *.
-  - destruct (refused o l || Nat.eqb (numel (lshape l)) 0); cbn in *; auto.
-  - rewrite map_map in H. cbn in H. exact H.
+  destruct t as [p k0 [o l]|p [files|e] rm].
+  - cbn in *. destruct (refused o l || Nat.eqb (numel (lshape l)) 0); cbn in *; auto.
+  - apply existsb_exists in H as (x & Hx & Hkx). cbn [file_writes] in Hx. rewrite map_map in Hx.
+    apply existsb_exists. exists x. split; auto. cbn [file_targets]. apply in_or_app. left. exact Hx.
   - discriminate.
+Qed.
+
+Lemma wr_target : forall t k, wr t k = true -> existsb (floc_eqb k) (file_targets t) = true.
+Proof.
+  intros t k H. unfold wr in H. destruct t as [p k0 [o l]|p [files|e] rm]; try discriminate.
+  apply existsb_exists in H as (x & Hx & Hkx). apply existsb_exists. exists x. split; auto.
+  cbn [file_targets]. apply in_or_app. right. exact Hx.
 Qed.
 
 Lemma independent2_wd : forall a b k va vb, independent2 a b = true -> wd a k = Some va -> wd b k = Some vb -> False.
@@ -211,10 +249,18 @@ Proof.
   rewrite (disjointb_spec path_eqb _ _ k H Ha path_eqb_eq) in Hb. discriminate.
 Qed.
 
-Lemma independent2_wf : forall a b k va vb, independent2 a b = true -> wf a k = Some va -> wf b k = Some vb -> False.
+(* a task touches a file when it writes or removes it *)
+Definition touches (t : task) (k : floc) : bool := match wf t k with Some _ => true | None => wr t k end.
+
+Lemma touches_target : forall t k, touches t k = true -> existsb (floc_eqb k) (file_targets t) = true.
 Proof.
-  intros a b k va vb H Ha Hb. unfold independent2 in H. apply andb_true_iff in H as [_ H].
-  apply wf_target in Ha. apply wf_target in Hb.
+  intros t k H. unfold touches in H. destruct (wf t k) eqn:E; [eapply wf_target; eauto|now apply wr_target].
+Qed.
+
+Lemma independent2_touch : forall a b k, independent2 a b = true -> touches a k = true -> touches b k = true -> False.
+Proof.
+  intros a b k H Ha Hb. unfold independent2 in H. apply andb_true_iff in H as [_ H].
+  apply touches_target in Ha. apply touches_target in Hb.
   rewrite (disjointb_spec floc_eqb _ _ k H Ha floc_eqb_eq) in Hb. discriminate.
 Qed.
 
@@ -224,8 +270,12 @@ Proof.
   intros a b s H; repeat split; intros.
   - rewrite !run_task_dest. destruct (wd a k) eqn:Ea, (wd b k) eqn:Eb; auto.
     exfalso. eapply independent2_wd; eauto.
-  - rewrite !run_task_fs. destruct (wf a k) eqn:Ea, (wf b k) eqn:Eb; auto.
-    exfalso. eapply independent2_wf; eauto.
+  - rewrite !run_task_fs.
+    destruct (touches a k) eqn:Ta, (touches b k) eqn:Tb.
+    + exfalso. eapply independent2_touch; eauto.
+    + unfold touches in Tb. destruct (wf b k); [discriminate|]. rewrite Tb. reflexivity.
+    + unfold touches in Ta. destruct (wf a k); [discriminate|]. rewrite Ta. reflexivity.
+    + unfold touches in Ta, Tb. destruct (wf a k); [discriminate|]. destruct (wf b k); [discriminate|]. rewrite Ta, Tb. reflexivity.
   - rewrite !run_task_dirs. destruct (wdirs a p), (wdirs b p), (existsb (path_eqb p) (dirs s)); reflexivity.
 Qed.
 
@@ -286,8 +336,36 @@ Proof.
   - congruence.
   - destruct (run_task_strict t s) eqn:E; cbn in H; try discriminate.
     apply IH in H. subst s'. unfold run_tasks; cbn. f_equal.
-    destruct t as [p k [o l]|p [files|e]]; cbn in E.
+    destruct t as [p k [o l]|p [files|e] rm]; cbn in E.
     + destruct (refused o l) eqn:R; try discriminate. inversion E; subst. cbn. now rewrite R.
     + inversion E. reflexivity.
     + discriminate.
 Qed.
+
+(* ------------------------------------------------------------------ what the call returns (S2) *)
+Definition res_err {A} (r : res A) : option err := match r with Ok _ => None | Raised e => Some e end.
+
+Lemma strict_task_error : forall t s, res_err (run_task_strict t s) = task_error t.
+Proof.
+  intros [p k [o l]|p [files|e] rm] s; cbn; auto. destruct (refused o l); reflexivity.
+Qed.
+
+Lemma strict_outcome : forall ts s, res_err (run_tasks_strict ts s) = first_error ts.
+Proof.
+  induction ts as [|t ts IH]; intro s; cbn; auto.
+  pose proof (strict_task_error t s) as H. destruct (run_task_strict t s) eqn:E; cbn in H |- *; rewrite <- H; auto.
+Qed.
+
+(* with the repair (f.result() after the wait) a pool call raises exactly when the sequential call does, and the same
+   exception class — whatever the completion order *)
+Lemma pool_call_repaired_lemma : forall o inplace t ts',
+  res_err (pool_call_gen true o inplace t ts') = res_err (run_sequential o inplace t).
+Proof.
+  intros o ip t ts'. unfold pool_call_gen, run_sequential. destruct (has_reserved t); auto.
+  rewrite strict_outcome. destruct (first_error (tasks_of o t [])); reflexivity.
+Qed.
+
+(* without it the call never raises for a task's sake *)
+Lemma pool_call_unrepaired_lemma : forall o inplace t ts',
+  has_reserved t = false -> pool_call_gen false o inplace t ts' = Ok (run_pool o inplace t ts').
+Proof. intros o ip t ts' H. unfold pool_call_gen. now rewrite H. Qed.
